@@ -180,7 +180,9 @@ def h_transposition_faults(ctx, case):
     dense = dense_from_bits(ctx, 'x', nr, nc)
     indptr, indices, data = to_csc(dense)
     nproc = ctx.int('n_processors', 1, case.get('max_proc', 3))
-    mpmodel.SCHED.reset(K=case.get('K', 0), faults=True, fault_steps=1)
+    mpmodel.SCHED.reset(K=case.get('K', 0), faults=True,
+                        fault_modes=case.get('fault_modes'),
+                        fault_steps=case.get('fault_steps', 1))
     src = env.path('src.h5')
     with env.File(src, 'w') as f:
         env.write_sparse(f, indptr, indices, data, dtype=np.float64)
@@ -244,6 +246,43 @@ def h_marker_stage_faults(ctx, case):
     return 'failed' if abnormal else 'ok'
 
 
+def h_marker_cli_reruns(ctx, case):
+    """the reference-marker command line runner, re-run into an output
+    directory that holds the product of an earlier run: when a worker of
+    the new run fails, the run raises and the old product is not left
+    there to pass for the new one"""
+    import os
+    from harness import refmarkers as RM
+    res = RM.run_cli(ctx, case)
+    abnormal = [m for m in res['outcome'].values() if m != 'ok']
+    ctx.note('outcome', dict(res['outcome']))
+    ctx.note('left at output', res['prior'])
+    if res['prior'] != 'nothing' and not res['clobber']:
+        ctx.reach('refused')
+        ctx.check(isinstance(res['raised'], RuntimeError) and not abnormal,
+                  'an existing output without clobber is refused before '
+                  'any worker starts')
+        return 'refused'
+    if abnormal:
+        ctx.reach('worker failed')
+        ctx.check(res['raised'] is not None,
+                  f'a worker terminated abnormally ({abnormal}) but the '
+                  'run returned normally')
+        ctx.check(not RM.marker_file_complete(res['out']),
+                  'after a failed worker no file at the requested output '
+                  'location would be accepted as complete by a later '
+                  f"stage (left there before the run: {res['prior']})")
+        return 'failed'
+    ctx.reach('all workers ok')
+    ctx.check(res['raised'] is None, 'no worker failed => success: '
+              + str(res['raised'])[:80])
+    if res['raised'] is None:
+        RM.check_tables(ctx, res)
+        ctx.check(RM.marker_file_complete(res['out']),
+                  'the product carries its metadata record')
+    return 'ok'
+
+
 def _rs_setup(case, mode):
     from harness import refstats as RS
     RS.setup(case, mode)
@@ -300,7 +339,12 @@ HARNESSES = [
     Harness('reference_marker_worker_faults', h_marker_stage_faults,
             setup=_rm_setup,
             cases=[{'vary': [], 'K': 0, 'fixed': True},
-                   {'vary': [], 'K': 0, 'fixed': True, 'route': 'mask'}],
+                   {'vary': [], 'K': 0, 'fixed': True, 'route': 'mask'},
+                   {'vary': [], 'K': 0, 'fixed': True, 'fault_steps': 4,
+                    'fault_modes': ['ok', 'raise_at', 'killed_at']},
+                   {'vary': [], 'K': 0, 'fixed': True, 'route': 'mask',
+                    'fault_steps': 4,
+                    'fault_modes': ['ok', 'raise_at', 'killed_at']}],
             thorough_cases=[{'vary': ['c0'], 'K': 1, 'fixed': True},
                             {'vary': ['c0'], 'K': 1, 'fixed': True,
                              'route': 'mask'}],
@@ -316,6 +360,24 @@ HARNESSES = [
                    'workers; 1-3 transposition workers); one abnormal '
                    'worker of either pool, every failure mode',
             expect_reach=['worker failed', 'all workers ok'], split=32),
+    Harness('reference_marker_cli_reruns', h_marker_cli_reruns,
+            setup=_rm_setup, cases=[{'K': 0}],
+            thorough_cases=[{'K': 1, 'fault_steps': 4,
+                             'fault_modes': ['ok', 'before', 'killed',
+                                             'after', 'raise_at',
+                                             'killed_at']}],
+            funcs=['cli.reference_markers.ReferenceMarkerRunner.run',
+                   'create_input_to_output_map',
+                   'markers.find_markers_for_all_taxonomy_pairs'],
+            stubs=['argschema parsing -> fully specified argument dict '
+                   '(ReferenceMarkerRunner.__new__)',
+                   'multiprocessing -> scheduler + fault model'],
+            bounds='output directory holding nothing / the complete '
+                   'product of an earlier run on other statistics / a '
+                   'truncated file; clobber on or off; 1-3 workers; one '
+                   'abnormal worker of either pool in any mode',
+            expect_reach=['refused', 'worker failed', 'all workers ok'],
+            split=32),
     Harness('selection_worker_faults', h_selection_faults, setup=_ss_setup,
             cases=[{'vary_genes': ['g0'], 'target': 1}],
             thorough_cases=[{'vary_genes': ['g0', 'g5'], 'K': 1}],
@@ -328,7 +390,10 @@ HARNESSES = [
                    'worker in any mode',
             expect_reach=['worker failed', 'all workers ok'], split=32),
     Harness('transposition_worker_faults', h_transposition_faults,
-            setup=_par_setup, cases=[{'shape': [2, 2]}],
+            setup=_par_setup,
+            cases=[{'shape': [2, 2]},
+                   {'shape': [2, 2], 'fault_steps': 4, 'max_proc': 2,
+                    'fault_modes': ['ok', 'raise_at', 'killed_at']}],
             thorough_cases=[{'shape': [3, 2], 'K': 1}],
             funcs=['csc_to_csr_parallel.transpose_sparse_matrix_on_disk_v2',
                    '_transpose_subset_of_indices',
@@ -342,9 +407,16 @@ HARNESSES = [
             cases=[{'cells': 2, 'genes': 1, 'clusters': 1, 'via_tree': True,
                     'max_proc': 3},
                    {'files': 2, 'cells': 1, 'genes': 1, 'clusters': 1,
-                    'via_tree': True, 'max_proc': 2}],
+                    'via_tree': True, 'max_proc': 2},
+                   {'cells': 2, 'genes': 1, 'clusters': 1, 'max_proc': 2,
+                    'K': 0, 'fault_modes': ['ok', 'raise_at', 'killed_at'],
+                    'fault_steps': 5}],
             thorough_cases=[{'cells': 3, 'genes': 1, 'clusters': 2,
                              'via_tree': True, 'max_proc': 3, 'K': 2},
+                            {'cells': 3, 'genes': 1, 'clusters': 2,
+                             'max_proc': 3, 'K': 1, 'fault_steps': 6,
+                             'fault_modes': ['ok', 'raise_at',
+                                             'killed_at']},
                             {'files': 2, 'cells': 2, 'genes': 1,
                              'clusters': 1, 'via_tree': True,
                              'max_proc': 3}],
